@@ -208,6 +208,9 @@ fn main() {
         // ---- oracle
         let mut bad = 0;
         let mut seen: std::collections::BTreeSet<String> = Default::default();
+        // reported violations are de-duplicated among themselves only (a model-predicted known finding of the
+        // same class must not hide a later instance the model does not predict)
+        let mut seen_viol: std::collections::BTreeSet<String> = Default::default();
         for (k, ch, idx) in &pts {
             let o = &obs[*idx].first;
             let infl = inflight_name(&spans, *k);
@@ -235,7 +238,7 @@ fn main() {
                 if verbose && first { println!("  FAIL k={k} {:?} {} :: {} :: {}", ch, rec.ops[*k - 1].brief(), v.signature, v.what); }
                 if known.contains(&v.signature) && (drv.is_none() || model_agrees[*idx]) {
                     sum.known_finding(&v.signature, &v.what, case);
-                } else if first {
+                } else if seen_viol.insert(v.signature.clone()) {
                     sum.oracle_violation(&v.signature, &v.what, case);
                 }
             } else {
